@@ -252,6 +252,56 @@ pub fn eval_gossip(sc: &Scenario) -> CaseResult {
     r
 }
 
+/// One drop with equal amounts at both survivors (loss-free, all of the victim's packets delivered), but
+/// packets one survivor sent to the other shortly BEFORE the death are held back until after both have timed
+/// the victim out and told each other: the stale connection-status table in them ("connected, last frame
+/// L-k") must not move the agreed cut-off.
+pub fn stale_case(i: u64, seed: u64) -> Scenario {
+    let r = mix(seed ^ 0x57a1e, i);
+    let mut sc = Scenario::basic(r, 3);
+    sc.max_pred = [8u8, 3, 2, 12, 6][(r % 5) as usize];
+    sc.sparse = (r >> 8) % 3 == 0;
+    let d = [0u8, 0, 1, 2][((r >> 12) % 4) as usize];
+    for p in sc.peers.iter_mut() {
+        p.delay = d;
+        p.locals = if (r >> 16) % 4 == 0 { 2 } else { 1 };
+    }
+    sc.sched = 0;
+    let lat = [0u16, 10][((r >> 18) % 2) as usize];
+    sc.link = LinkProfile { loss: 0, dup: 0, lat_min: lat, lat_max: lat };
+    sc.notify_ms = 200;
+    sc.timeout_ms = [400u32, 700, 1000][((r >> 20) % 3) as usize];
+    let kt = 90 + ((r >> 24) % 60) as u32;
+    let victim = 2u8;
+    let (a, b) = if (r >> 32) % 2 == 0 { (0usize, 1usize) } else { (1, 0) };
+    let back = 2 + ((r >> 36) % 10) as u32; // the held-back packets were sent 2..=11 ticks before the death
+    let span = 1 + ((r >> 40) % 4) as u32;
+    let extra = sc.timeout_ms + 300 + ((r >> 44) % 1200) as u32;
+    sc.ops.push(Op::Slow { tick: kt - back, from: peer_addr(a), to: peer_addr(b), len_ms: span * 16, extra_ms: extra });
+    if (r >> 56) % 3 == 0 {
+        sc.ops.push(Op::Slow { tick: kt - back, from: peer_addr(b), to: peer_addr(a), len_ms: span * 16, extra_ms: extra + 100 });
+    }
+    sc.ops.push(Op::Kill { tick: kt, peer: victim });
+    sc.ticks = kt + 1;
+    sc.settle = (sc.timeout_ms + extra) / 16 + 200;
+    if (r >> 60) % 2 == 0 {
+        sc.specs.push(SpecSpec { host: b as u8, max_behind: 10, catchup: 2, slow: 0, window: sc.max_pred });
+    }
+    sc
+}
+
+pub fn eval_stale(sc: &Scenario) -> CaseResult {
+    let mut r = eval_gossip(sc);
+    if let Some((s, m)) = r.violation.take() {
+        r.violation = Some((s.replace("gossip_equal_amounts", "stale_status"), m));
+    }
+    r.classes.retain(|c| *c != "second_drop_learnt_by_gossip");
+    r.classes.push("status_table_older_than_the_drop_delivered_after_it");
+    let out = run(sc, &RunOpts::default());
+    r.nontrivial = out.peers.iter().take(2).all(|p| p.alive && p.cs.iter().any(|c| c.0)) && out.net.delayed > 0;
+    r
+}
+
 pub fn run_prop(ctx: &Ctx) -> PropReport {
     let mut rep = PropReport::new("C10", "fault_enumeration");
     let seed = ctx.seed;
@@ -268,6 +318,9 @@ pub fn run_prop(ctx: &Ctx) -> PropReport {
     rep.part(|| run_enum(ctx, "isolated_observer",
         "seeded 3-peer sessions in which the observer loses both remote peers at the same instant, one of them a few frames behind the other: both endpoints time out in the same poll with different last frames; the single survivor's final timeline must carry, for EACH dropped player, its real inputs up to its own last frame and default/Disconnected afterwards",
         ctx.tier.pick(600u64, 4000u64), move |i| isolated_case(i, seed), eval_gossip, false));
+    rep.part(|| run_enum(ctx, "stale_status",
+        "seeded 3-peer sessions, loss-free, both survivors hold the same amount of the victim's input; 1-4 ticks of packets that one survivor sent to the other 2-11 ticks BEFORE the death are delivered only after both have timed the victim out and exchanged their cut-offs (survivor-to-survivor reordering by more than the disconnect timeout): the stale 'connected, last frame L-k' table in them must not move the cut-off; same agreement oracle, no known finding applies",
+        ctx.tier.pick(800u64, 5000u64), move |i| stale_case(i, seed), eval_stale, false));
     rep.assumptions = vec!["agreement is an end-state claim: compared after a settle phase longer than the disconnect timeout plus gossip".into()];
     rep
 }
